@@ -23,3 +23,98 @@ func vp_C13_qdtext() {
 	vpReach("safe", got && len(s) == 6)
 	vpReach("unsafe", !got)
 }
+
+// vpRefParseAuth: reference parser of the X-Matrix Authorization header:
+//   "X-Matrix" SP param *( "," param ), param = name "=" value, names/values trimmed of whitespace, values of one
+//   pair of surrounding double quotes (all quotes at both ends, as strings.Trim does); later duplicates win.
+func vpRefParseAuth(h string) (scheme, origin, dest, key, sig string) {
+	sp := -1
+	for i := 0; i < len(h); i++ {
+		if h[i] == ' ' {
+			sp = i
+			break
+		}
+	}
+	if sp < 0 {
+		return h, "", "", "", ""
+	}
+	scheme = h[:sp]
+	if scheme != "X-Matrix" {
+		return
+	}
+	rest := h[sp+1:]
+	start := 0
+	for i := 0; i <= len(rest); i++ {
+		if i == len(rest) || rest[i] == ',' {
+			part := rest[start:i]
+			start = i + 1
+			eq := -1
+			for j := 0; j < len(part); j++ {
+				if part[j] == '=' {
+					eq = j
+					break
+				}
+			}
+			if eq < 0 {
+				continue
+			}
+			name := vpTrimSpace(part[:eq])
+			val := vpTrimQuotes(vpTrimSpace(part[eq+1:]))
+			switch name {
+			case "origin":
+				origin = val
+			case "key":
+				key = val
+			case "sig":
+				sig = val
+			case "destination":
+				dest = val
+			}
+		}
+	}
+	return
+}
+
+func vpIsSpace(c byte) bool {
+	return c == ' ' || c == '\t' || c == '\n' || c == '\v' || c == '\f' || c == '\r'
+}
+
+func vpTrimSpace(s string) string {
+	for len(s) > 0 && vpIsSpace(s[0]) {
+		s = s[1:]
+	}
+	for len(s) > 0 && vpIsSpace(s[len(s)-1]) {
+		s = s[:len(s)-1]
+	}
+	return s
+}
+
+func vpTrimQuotes(s string) string {
+	for len(s) > 0 && s[0] == '"' {
+		s = s[1:]
+	}
+	for len(s) > 0 && s[len(s)-1] == '"' {
+		s = s[:len(s)-1]
+	}
+	return s
+}
+
+// vp:check C13 both configs=tail:0|1|2|3|4 K=40 timeout=900
+// vp_C13_parse_auth: ParseAuthorization never panics and agrees with the reference parser on "X-Matrix " followed by
+// an arbitrary ASCII tail of the configured length and a fixed well-formed remainder.
+func vp_C13_parse_auth() {
+	tail := vpNondetStringN("tail", vpConfigInt("tail"))
+	for i := 0; i < len(tail); i++ {
+		vpAssume(tail[i] < 0x80)
+	}
+	h := "X-Matrix " + tail + `,origin="o",key="k",sig="s"`
+	scheme, origin, dest, key, sig := ParseAuthorization(h)
+	rs, ro, rd, rk, rsig := vpRefParseAuth(h)
+	vpAssert("scheme", scheme == rs)
+	vpAssert("origin", string(origin) == ro)
+	vpAssert("destination", string(dest) == rd)
+	vpAssert("key", string(key) == rk)
+	vpAssert("sig", sig == rsig)
+	vpReach("tail-sets-destination", string(dest) != "")
+	vpReach("done", true)
+}
